@@ -36,6 +36,19 @@ def gen_datagrams(rng, n):
         out.append(("block-number", N.enc_ack(blk)))
         out.append(("block-number", N.enc_data(blk, b"")))
         out.append(("block-number", N.enc_data(blk, b"y" * 512)))
+    # long *valid UTF-8* strings (multi-byte characters at every alignment) in the string fields: file names end up in
+    # log lines and ERROR messages, which are cut to size somewhere
+    for ch in ("\u00e9", "\u6587", "\U0001F600"):
+        for lead in range(0, 4):
+            for total in (120, 250, 254, 255, 256, 300, 440, 470, 490, 500, 505, 507):
+                name = ("a" * lead + ch * 200)[: max(1, (total - lead) // len(ch.encode()))]
+                name = "a" * lead + ch * max(1, (total - lead) // len(ch.encode()))
+                out.append(("long-utf8-name", N.enc_req(N.RRQ, name)))
+                out.append(("long-utf8-name", N.enc_req(N.WRQ, name)))
+                out.append(("long-utf8-name", N.enc_req(N.RRQ, "sub/" + name)))
+            out.append(("long-utf8-field", N.enc_req(N.RRQ, "probe.bin", mode=("a" * lead + ch * 60).encode())))
+            out.append(("long-utf8-field", N.enc_error(1, ("a" * lead + ch * 150).encode())))
+            out.append(("long-utf8-field", N.enc_req(N.RRQ, "probe.bin", options=[("a" * lead + ch * 40, "1")])))
     # (iv) option boundary values, each option alone and combined
     uniq = 0
     for kind, name in ((N.RRQ, "probe.bin"), (N.WRQ, None)):
